@@ -15,9 +15,12 @@
 (*               "none" if the call returned                               *)
 (*     written   what the output stream had received when the call ended   *)
 (*               (strings: TLC evaluates Len and SubSeq on strings)        *)
-(*     next, nextfresh   result of the follow-up call / of the same call   *)
-(*               in a fresh interpreter                                    *)
+(*     next, nextfresh   result of the follow-up call (possibly the same    *)
+(*               call with the SAME argument objects) / of that call in a  *)
+(*               fresh interpreter                                         *)
 (*     gfail     digest of the global state right after the failed call    *)
+(*     args0, args  digest of the caller-owned argument objects (values,   *)
+(*               nodes, events, with every attribute) before / after it    *)
 (*     g         digest of the global state after the follow-up call       *)
 (***************************************************************************)
 EXTENDS Naturals, Sequences, TLC, Json, IOUtils
@@ -30,6 +33,7 @@ JudgeRun(t, r, i) ==
   IF ~H!PassedThrough(r.reached, r.injected) THEN [ok |-> FALSE, why |-> "exception did not pass through", at |-> i]
   ELSE IF ~H!IsPrefix(r.written, t.full) THEN [ok |-> FALSE, why |-> "written is not a prefix", at |-> i]
   ELSE IF ~H!StateRestored(r.gfail, t.g0) THEN [ok |-> FALSE, why |-> "globals changed by the failed call", at |-> i]
+  ELSE IF ~H!ArgumentsUntouched(r.args, r.args0) THEN [ok |-> FALSE, why |-> "caller's arguments changed", at |-> i]
   ELSE IF ~H!LeftUsable(r.next, r.nextfresh, r.g, t.g0) THEN
          [ok |-> FALSE, why |-> IF r.g # t.g0 THEN "globals changed" ELSE "follow-up differs from fresh", at |-> i]
   ELSE [ok |-> TRUE, why |-> "-", at |-> 0]
